@@ -1808,4 +1808,45 @@ theorem untyped_shapeDoc (d : DocD) (h : UntypedFields d) : UntypedFields (shape
   obtain ⟨a, ha, rfl⟩ := List.mem_map.mp ha'
   exact untypedAction_render a (h n hn a ha)
 
+/-! ### positions in the trigger list -/
+
+theorem mapE_getElem {α β : Type} {f : α → Except Err β} : ∀ (l : List α) (l' : List β) (i : Nat) (a : α),
+    mapE f l = .ok l' → l[i]? = some a → ∃ b, f a = .ok b ∧ l'[i]? = some b
+  | [], _, i, a, _, h => by simp at h
+  | x :: xs, l', i, a, hm, h => by
+    simp only [mapE] at hm
+    cases hx : f x with
+    | error e => simp [hx] at hm
+    | ok b =>
+      simp only [hx] at hm
+      cases hxs : mapE f xs with
+      | error e => simp [hxs] at hm
+      | ok bs =>
+        simp only [hxs] at hm
+        cases hm
+        cases i with
+        | zero =>
+          simp at h; subst h
+          exact ⟨b, hx, by simp⟩
+        | succ j =>
+          simp at h
+          obtain ⟨b', hb', hj⟩ := mapE_getElem xs bs j a hxs h
+          exact ⟨b', hb', by simpa using hj⟩
+
+theorem render_triggers (c : Container) (o : DocD) (h : render c = .ok o) :
+    ∃ gd fd, o.triggers = (c.triggers.map (fun t => { t with flow := assignFlowRef fd t.flow, groups := t.groups.map (assignGroup gd), excludeGroups := t.excludeGroups.map (assignGroup gd) })).map renderTrigger := by
+  unfold render at h
+  split at h
+  · cases h
+  · split at h
+    · cases h
+    · split at h
+      · cases h
+      · split at h
+        · cases h
+        · split at h
+          · cases h
+          · cases h
+            exact ⟨_, _, rfl⟩
+
 end Rpft.Document
